@@ -481,11 +481,14 @@ def part_g(desc) -> Acc:
                     acc.case()
                     want = R.encode_data(host_tx, 1 if attempt else 0, host_rx, payload)
                     case = {"part": "g", "what": "data", "len": L, "pat": pk, "attempt": attempt, "seed": seed}
-                    if len(w) != 1 or w[0][1] != want:
+                    # (a CANCEL byte in front of a frame is not part of the frame: ASH lets a sender put one there to make
+                    # the receiver drop whatever line noise precedes it - the host's own RST does)
+                    if len(w) != 1 or (w[0][1] != want and w[0][1] != bytes([R.CAN]) + want):
                         acc.violation("C03/wire/DATA", f"DATA on the wire {[x[1].hex() for x in w]} want {want.hex()}", case)
                     else:
                         acc.hit("wire_DATA_retx" if attempt else "wire_DATA")
-                        for b in w[0][1][:-1]:
+                        body_ = w[0][1][:-1]
+                        for b in (body_[1:] if body_[:1] == bytes([R.CAN]) else body_):
                             if b in R.RESERVED and b != R.ESC:
                                 acc.violation("C03/wire/reserved-byte-unstuffed", f"reserved byte 0x{b:02x} inside {w[0][1].hex()}", case)
                         body = w[0][1][:-1]
